@@ -690,6 +690,23 @@ CONTROLLER_TARGETS = (
 )
 
 
+LIFECYCLE_TARGETS = (
+    # the engine's own life cycle: launch pipeline, exit handling, termination, restart, and the state snapshot
+    ("engine", "Engine.run", ("LaunchTask", "SetLaunchTime", "HandleTaskExit", "HandleTaskObservableException", "Terminate")),
+    ("engine", "Engine._setExitReason", ()),
+    ("engine", "Engine.restart", ()),
+    ("engine", "Engine.kill", ()),
+    ("engine", "Engine.shutdown", ()),
+    ("engine", "Engine._create_termination_observable", ()),
+    ("engine", "RepeatingEngine.run", ("EngineTaskController", "schedule_next_instance")),
+    ("engine", "RepeatingEngine.kill", ()),
+    ("engine", "RepeatingEngine.restart", ()),
+    ("engine", "RepeatingEngine.notify_all_producers_finished", ()),
+    ("workflow", "ComponentState.stageIn", ()),
+    ("workflow", "ComponentState.restart", ()),
+)
+
+
 def _original_function(fn, name, module_file):
     """The repository's function behind a harness wrapper (wrappers keep it in a closure cell)."""
     seen = set()
@@ -758,7 +775,8 @@ def install_targeted_yield(p: float = 0.3, max_sleep: float = 0.004, seed: int =
 
     mon.register_callback(tool, mon.events.LINE, on_line)
     targets = {"emission": TARGET_FUNCTIONS, "controller": CONTROLLER_TARGETS,
-               "both": TARGET_FUNCTIONS + CONTROLLER_TARGETS}[which]
+               "both": TARGET_FUNCTIONS + CONTROLLER_TARGETS, "lifecycle": LIFECYCLE_TARGETS,
+               "all": TARGET_FUNCTIONS + CONTROLLER_TARGETS + LIFECYCLE_TARGETS}[which]
     counter["which"] = which
     done_codes = set()
     for mod, qual, inner in targets:
